@@ -267,6 +267,24 @@ impl DataRecorder for &mut VecRecorder {
     }
 }
 
+/// recorder that gives up after `limit` bytes: kind 0 = Err(HostAssetImplFailed), 1 = Ok(0) (full)
+pub struct FailingRecorder {
+    pub data: Vec<u8>,
+    pub limit: usize,
+    pub kind: u8,
+}
+impl DataRecorder for &mut FailingRecorder {
+    fn write(&mut self, buf: &[u8]) -> Result<usize, IoError> {
+        let room = self.limit.saturating_sub(self.data.len());
+        if room == 0 {
+            return if self.kind == 0 { Err(IoError::HostAssetImplFailed) } else { Ok(0) };
+        }
+        let n = buf.len().min(room);
+        self.data.extend_from_slice(&buf[..n]);
+        Ok(n)
+    }
+}
+
 pub struct VecRomSet {
     pub pages: Vec<Vec<u8>>,
     pub next: usize,
